@@ -165,13 +165,15 @@ class TableDec:
 
 
 class RandDec(TableDec):
-    def __init__(self, rng, pskip, pstop):
+    def __init__(self, rng, pskip, pstop, no_first=False):
         self.t, self.rng, self.pskip, self.pstop = {}, rng, pskip, pstop
+        self.no_first = no_first
 
     def skip(self, run, v, a):
         k = 'skip_%d_%d_%d' % (run, v, a)
         if k not in self.t:
-            self.t[k] = self.rng.random() < self.pskip
+            self.t[k] = self.rng.random() < self.pskip and not (
+                self.no_first and a == 0)
         return self.t[k]
 
     def keep(self, run, v, k, s):
@@ -264,6 +266,13 @@ def _all(conds):
     return And(*conds)
 
 
+def _any(conds):
+    conds = list(conds)
+    if all(isinstance(c, (bool, np.bool_)) for c in conds):
+        return any(bool(c) for c in conds)
+    return Or(*conds)
+
+
 def _truth(c):
     if isinstance(c, SBool):
         import z3
@@ -291,15 +300,25 @@ def _calls_class(got, want):
     return ':repetitions'
 
 
-def _raise_class(exc, log, resumed=False):
+FIRST_REP_SKIP = 'SkipThisOne-in-first-repetition-escapes'
+
+
+def _raise_class(exc, log, start=None):
     rm = repo_module(RUN)
     if isinstance(exc, rm.SkipThisOne):
-        if log.calls and not resumed:
+        if log.calls:
             _, v, _a = log.calls[-1]
-            if v >= 0 and log.succ[v] == 0:
-                return 'raises:SkipThisOne:first-repetition-of-a-variation'
+            if v >= 0 and log.succ[v] == 0 and not (start and v in start):
+                return FIRST_REP_SKIP
         return 'raises:SkipThisOne'
     return 'raises:' + type(exc).__name__
+
+
+def _key(site, failed_name):
+    if failed_name == FIRST_REP_SKIP:
+        # one root cause whatever the entry point
+        return 'C05/_simulate_for_current_params_common/' + FIRST_REP_SKIP
+    return 'C05/%s/%s' % (site, failed_name)
 
 
 def scenario(cfg, rep_max, dec, emit, idx=None, start=None):
@@ -355,7 +374,7 @@ def scenario(cfg, rep_max, dec, emit, idx=None, start=None):
                 log.new_run(1)
                 runner.simulate()
     except Exception as e:  # outcome of the code under test
-        emit(_raise_class(e, log, resumed=start is not None), False)
+        emit(_raise_class(e, log, start), False)
         return log
 
     # ---- the reference ----------------------------------------------------
@@ -438,9 +457,10 @@ def scenario(cfg, rep_max, dec, emit, idx=None, start=None):
                 queries.append({n: x, 'c': 7})
         if len(names) >= 2:
             queries += [dict(zip(names, c)) for c in combos]
+        cval = [v for n, v, _ in grid if n == 'c'][0]
         for q in queries:
-            if 'c' in q and cfg['grid'] == 'g2x2':
-                q = dict(q, c=[5, 6])
+            if 'c' in q:
+                q = dict(q, c=cval)
             try:
                 out = runner.results.get_result_values_list('res', q)
             except Exception as e:
@@ -467,6 +487,12 @@ class _Collect:
         self.n += 1
         if not _truth(cond):
             self.failed.append(name)
+
+
+def _pick(failed, name):
+    """the failed comparison that names the violation: the one the solver
+    reported if it fails concretely too, else the first failing one"""
+    return name if name in failed else failed[0]
 
 
 def _site(cfg, resumed=False):
@@ -577,10 +603,7 @@ class Simulate(Harness):
         col, log, rep_max, idx = self._run_table(cfg, model)
         key = None
         if col.failed:
-            key = 'C05/%s/%s' % (_site(cfg), col.failed[0])
-        pattern = {k: v for k, v in model.items()
-                   if not k.startswith('val_') and v is not True
-                   or k.startswith('skip_') and v}
+            key = _key(_site(cfg), _pick(col.failed, name))
         return dict(reproduced=bool(col.failed), key=key,
                     detail=dict(grid=GRIDS[cfg['grid']], mode=cfg['mode'],
                                 rep_max=rep_max, index=idx,
@@ -592,18 +615,22 @@ class Simulate(Harness):
     def concrete(self, cfg, rng):
         known = _known_keys()
         n = 0
-        for _ in range(12):
+        first_known = _key('simulate', FIRST_REP_SKIP) in known
+        for j in range(12):
+            # (while the first-repetition defect is a known finding most
+            # patterns avoid it so that the rest of the loop is exercised)
             dec = RandDec(rng, rng.choice([0.0, 0.2, 0.4]),
-                          rng.choice([0.0, 0.15, 0.5]))
+                          rng.choice([0.0, 0.15, 0.5]),
+                          no_first=first_known and j % 4 != 0)
             rep_max = rng.randrange(1, 9)
-            c = dict(cfg, rep=[1, 16], max_skips=14)
+            c = dict(cfg, rep=[1, 16], max_skips=60)
             idx = None
             if cfg['mode'] == 'index':
                 idx = rng.randrange(len(documented_order(GRIDS[cfg['grid']])[1]))
             col = _Collect()
             scenario(c, rep_max, dec, col, idx=idx)
             bad = [f for f in col.failed
-                   if 'C05/%s/%s' % (_site(cfg), f) not in known]
+                   if _key(_site(cfg), f) not in known]
             if bad:
                 raise AssertionError('real runner deviates from the reference'
                                      ': %r rep_max=%d pattern=%r' %
@@ -681,7 +708,7 @@ class Resume(Harness):
         start, rep_max = self._table_start(cfg, model)
         col = _Collect()
         log = scenario(cfg, rep_max, TableDec(model), col, start=start)
-        key = 'C05/%s/%s' % (_site(cfg, True), col.failed[0]) \
+        key = _key(_site(cfg, True), _pick(col.failed, name)) \
             if col.failed else None
         return dict(reproduced=bool(col.failed), key=key,
                     detail=dict(grid=GRIDS[cfg['grid']], rep_max=rep_max,
@@ -693,6 +720,8 @@ class Resume(Harness):
                                 failed=col.failed))
 
     def concrete(self, cfg, rng):
+        known = _known_keys()
+        first_known = _key('simulate', FIRST_REP_SKIP) in known
         n = 0
         for _ in range(10):
             table = {'d': rng.randrange(-1, 6)}
@@ -709,14 +738,16 @@ class Resume(Harness):
                 continue
             if rep_max < 1:
                 continue
-            dec = RandDec(rng, rng.choice([0.0, 0.3]), rng.choice([0.0, 0.3]))
+            dec = RandDec(rng, rng.choice([0.0, 0.3]), rng.choice([0.0, 0.3]),
+                          no_first=first_known)
             col = _Collect()
-            scenario(dict(cfg, max_skips=20, rep=[1, 16]), rep_max, dec, col,
+            scenario(dict(cfg, max_skips=60, rep=[1, 16]), rep_max, dec, col,
                      start=start)
-            if col.failed:
+            if [f for f in col.failed
+                    if _key(_site(cfg, True), f) not in known]:
                 raise AssertionError('resume deviates: %r %r %r' %
                                      (col.failed, table, dec.t))
-            n += 1
+            n += not col.failed
         return n
 
 
@@ -744,7 +775,8 @@ def _lookup_case(cfg, vals, fixed, rvals, emit, extra=None):
         [len(unpacked) == nvar] +
         [unpacked[i][n] == vals[n][coords[i][j]]
          for i in range(min(nvar, len(unpacked))) for j, n in enumerate(names)]
-        + [unpacked[i].unpack_index == i for i in range(len(unpacked))]))
+        + [unpacked[i].unpack_index == (i if names else -1)
+           for i in range(len(unpacked))]))
     q = {n: fixed[n] for n in cfg['fixed']}
     if extra is not None:
         q['c'] = extra
@@ -767,12 +799,10 @@ def _lookup_case(cfg, vals, fixed, rvals, emit, extra=None):
         nomatch = []
         for n in cfg['fixed']:
             nomatch.append(_all([fixed[n] != x for x in vals[n]]))
-        emit('ValueError-only-for-a-value-outside-the-grid',
-             Or(*nomatch) if not all(isinstance(c, bool) for c in nomatch)
-             else any(nomatch))
+        emit('ValueError-only-for-a-value-outside-the-grid', _any(nomatch))
         return
     except Exception as e:
-        emit('get_pack_indexes:raises:' + type(e).__name__, False)
+        emit('raises:' + type(e).__name__, False)
         return
     idx = [int(i) for i in np.asarray(idx).ravel()]
     emit('indexes-ascending-unique', idx == sorted(set(idx)) and all(
@@ -865,9 +895,9 @@ class Lookup(Harness):
         _lookup_case(cfg, vals, fixed, rvals, col, extra)
         key = None
         if col.failed:
-            site = 'get_result_values_list' if col.failed[0].startswith(
+            cls = _pick(col.failed, name)
+            site = 'get_result_values_list' if cls.startswith(
                 ('values', 'get_result_values_list')) else 'get_pack_indexes'
-            cls = col.failed[0]
             if not cfg['dims']:
                 cls += ':no-unpacked-parameter'
             key = 'C05/%s/%s' % (site, cls)
